@@ -3,6 +3,29 @@
 import vlib, hist
 
 ID = "C10"
+MANIFEST = {
+    "text": "Theorems (Coq; LTS Conc/RWLock.v = the three routines of rwlock.c as programs over the actions of the C05 LTS "
+            "(CondMutex, carrying the C04 Mutex LTS) + reader_count/write_flag; every number of ULT/external callers, every "
+            "interleaving; unlock called by a holder): rw->mutex+rw->cond of every reachable state is a reachable C05 state (C05 "
+            "and C04 theorems reused, not re-proved); write_flag is set exactly while a writer holds and then reader_count = 0 and "
+            "no read hold exists, reader_count = number of read holds; a writer acquires only with no holder at all, a reader only "
+            "with no writer; the counters are written only by the owner of rw->mutex; readers shared: at the loop test of rdlock "
+            "with write_flag = 0 the caller proceeds and cannot start a wait, whatever reader_count is; nobody stuck (safety form): "
+            "every locker blocked in the cond is in its wait list, and while somebody is queued or about to enqueue the lock is held "
+            "or an unlocker owning the mutex is inside its broadcast (no lost wake-up at rwlock level, built on C05 atomic "
+            "release-and-wait); each unlock enters ABTI_cond_broadcast at its DATA record and leaves it only after the broadcast "
+            "returned. Tie: real executions (2-8 ULT/external callers on 1-4 streams, tasklets refused, adversarial arrival orders, "
+            "nested locks) recorded as totally ordered histories of atomic actions and replayed through the extracted step "
+            "function; harness-side holder counters (reader with writer, two writers, lost update, max simultaneous readers) and "
+            "raw-history monitors (waits although free / although only readers hold, data written without the mutex, stuck caller). "
+            "Eventual acquisition under fair scheduling (liveness) and writer starvation-freedom are not claimed: the lock is "
+            "reader-preferring by construction.",
+    "note": "Trusted: as C04/C05 (Coq kernel, extraction, LTS abstraction, hooks, trace lock, blocking abstracted). The loop tests "
+            "of rdlock/wrlock leave no record; the model takes their outcome from the caller's next record (ACQ(cond lock) = wait, "
+            "DATA = proceed) and checks it against the modelled counters. Client contract in the model: unlock only by a holder "
+            "(reader_count-- on 0 is excluded, the C code has only a disabled UB assert there).",
+    "technique": "Coq proofs (inductive invariants, projection onto the C05/C04 LTSs, frame lemmas) + history conformance",
+}
 
 
 def body(rng):
@@ -59,7 +82,7 @@ def gen_scenario(rng, big=False):
 
 
 def gen(rng, tier):
-    n = 220 if tier == "quick" else 2500
+    n = 220 if tier == "quick" else 8000
     return [gen_scenario(rng, big=(tier != "quick" and i % 3 == 0)) for i in range(n)], {"scenarios": n}
 
 
@@ -70,6 +93,9 @@ def run(tier, seed, replay):
              "rwlocks, rdlock/wrlock/unlock with yields and sleeps inside the held section, adversarial arrival orders "
              "(readers then a writer, a writer then everybody, writers only, mixed), nested locks in index order; every "
              "history replayed through the extracted LTS; harness-side holder counters + raw-history monitors; non-trivial = all",
-        extra_assumptions=["blocking (futex / context switch) is abstracted to program points; context-switch correctness is C02/C11",
+        extra_assumptions=["a watchdog stop counts as a failure of this property only if an unfinished caller is blocked on the "
+                           "rwlock with nothing left to wake it (queued in rw->cond with reader_count = write_flag = 0 and nobody "
+                           "inside unlock, or queued in rw->mutex with lock word and waiter_lock free); otherwise reported as starved",
+                           "blocking (futex / context switch) is abstracted to program points; context-switch correctness is C02/C11",
                            "the loop tests of rdlock/wrlock leave no record: the model takes the test outcome from the next "
                            "record of the caller (ACQ(cond lock) = wait, DATA = proceed) and checks it against the modelled fields"])
